@@ -782,7 +782,6 @@ class EncodingParser(object):
         return self.handlePossibleTag(False)
 
     def handlePossibleEndTag(self):
-        next(self.data)
         return self.handlePossibleTag(True)
 
     def handlePossibleTag(self, endTag):
